@@ -98,6 +98,18 @@ func (in *Interp) ghostReturn(fn *ssa.Function, f *Frame) {
 }
 
 func (in *Interp) ghostViolation(msg string) {
+	if in.cfg.Debug && in.cur != nil {
+		fmt.Printf("  [ghost-violation] %s in T%d:", msg, in.cur.id)
+		for i := len(in.cur.frames) - 1; i >= 0 && i >= len(in.cur.frames)-8; i-- {
+			fr := in.cur.frames[i]
+			pos := ""
+			if fr.block != nil && fr.ip < len(fr.block.Instrs) {
+				pos = in.fset.Position(fr.block.Instrs[fr.ip].Pos()).String()
+			}
+			fmt.Printf(" <- %s (%s)", fr.fn.Name(), pos)
+		}
+		fmt.Println()
+	}
 	for _, a := range in.asserts {
 		if a.Label == msg {
 			return
